@@ -64,8 +64,11 @@ func (a *flAgg) flush() {
 // flFullAtom recognises the buffer-full test on the distance between the
 // cursors: +1 for "w−r == N" (true means full), −1 for "w−r < N" (true means
 // not full; the form `>=` normalises to it; w−r cannot exceed N: RB-inv).
+var reCursorDistance = regexp.MustCompile(`\(r\.w(@\d+)? - r\.r(@\d+)?\)`)
+
 func flFullAtom(as string) int {
-	if !strings.Contains(as, "r.w") || !strings.Contains(as, "r.r") {
+	// the distance between the cursors, w - r (not their sum, not r - w)
+	if m := reCursorDistance.FindStringSubmatch(as); m == nil || m[1] != m[2] {
 		return 0
 	}
 	switch {
@@ -304,6 +307,24 @@ func flScanSnapshot(c *Ctx, a *flAgg) {
 				for _, w := range writes {
 					if es == extractOf(w.Val, 1) {
 						prov = true
+					}
+				}
+				// a failed write is reported (unless the reader already failed with
+				// something else than EOF)
+				for _, w := range writes {
+					we := extractOf(w.Val, 1)
+					if wnil, have := p.lit("(" + we + " == nil)"); have && !wnil {
+						scanOK := true
+						for _, sc := range scans {
+							if v, ok := p.lit("(" + extractOf(sc.Val, 1) + " == nil)"); !ok || !v {
+								scanOK = false // scan failed first (or was not tested): its error stands
+							}
+						}
+						if ((rnilOK && rnil) || reof) && scanOK && es != we {
+							a.bad("FL-err-prec", "ScanSnapshot/write-error-reported", "the pass-through writer failed and the reader had not (or only with EOF), yet the error carried on is "+es+": lines are lost without the caller being told", w.Pos)
+						} else {
+							a.ok("FL-err-prec", "ScanSnapshot/write-error-reported", "a failed write to the pass-through writer is reported unless the reader or the scanner failed first", w.Pos)
+						}
 					}
 				}
 				switch {
@@ -686,6 +707,30 @@ func flReader(c *Ctx, a *flAgg) {
 			}
 			if len(reads) == 0 && p.Term == "return" {
 				a.bad("FL-fill-once", "fill/no-read", "fill can return without reading and without an error: readSlice would spin", pos)
+			}
+			// fill returns only with data, with a recorded error, or after the
+			// retry bound set io.ErrNoProgress: a return right after a Read of
+			// (0, nil) hands control back to readSlice, which calls fill again
+			// - for ever if the reader keeps returning (0, nil)
+			if len(reads) > 0 && p.Term == "return" {
+				last := reads[len(reads)-1]
+				ln, le := extractOf(last.Val, 0), extractOf(last.Val, 1)
+				en, ok1 := p.lit("(" + le + " == nil)")
+				pos0, ok2 := p.lit("(0 < " + ln + ")")
+				zero, ok3 := p.lit("(" + ln + " == 0)")
+				empty := ok1 && en && ((ok2 && !pos0) || (ok3 && zero))
+				undecided := ok1 && en && !ok2 && !ok3
+				errStored := false
+				for _, ev := range p.Events {
+					if ev.Kind == EvStore && strings.HasSuffix(ev.Addr.String(), "r.err") && !ev.Val.isNilConst() {
+						errStored = true
+					}
+				}
+				if (empty || undecided) && !errStored {
+					a.bad("FL-fill-retry", "fill/empty-read-returns", "fill returns after a Read of (0, nil) without recording an error: readSlice calls it again at once, and a reader that keeps returning (0, nil) is polled for ever instead of ending in io.ErrNoProgress", pos)
+				} else {
+					a.ok("FL-fill-retry", "fill/empty-read-returns", "fill returns only with data, with the reader's error, or with io.ErrNoProgress", pos)
+				}
 			}
 			if len(reads) == 1 && p.Term == "return" {
 				a.ok("FL-fill-once", "fill/one-read", "a further Read is attempted only after (0, nil): fill returns after the first data", pos)
